@@ -125,7 +125,7 @@ func Run(cfg core.Config, scope core.Scope, opt Options) *core.Result {
 	}
 	for ek := range opt.Allowed {
 		if !used[ek] {
-			res.Brokenf("GLOBAL.write: stale table entry %s", ek)
+			res.Stale("GLOBAL.write: stale table entry %s", ek)
 		}
 	}
 	return res
